@@ -788,7 +788,8 @@ def main():
         new_driver()
         res = judge_rx(orig, wit['off'], xs)
         chk.case(('corpus', wit['orig_hex'], wit['off'], wit['xor_hex']), nontrivial=True,
-                 sample=dict(kind='corpus witness', orig=wit['orig_hex'], off=wit['off'], xor=wit['xor_hex'], verdict=res['surface'], effects=res['effects']))
+                 sample=(dict(kind='corpus witness', name=wit['name'], orig=wit['orig_hex'], off=wit['off'], xor=wit['xor_hex'],
+                              verdict=res['surface'], effects=res['effects'], signature=res['sig']) if wit['name'] in ('collide-tstr16', 'swallow-next-block') else None))
         chk.count('stream', 'corpus')
         if not ref['effects']:
             chk.obligation('corpus:%s' % wit['name'], False, 'the uncorrupted witness bundle is not accepted by the agent any more')
@@ -852,9 +853,9 @@ def main():
     tick(chk, 'tx impl side done: %d scenarios, %d transmissions, exceptions %s' % (len(scenarios), len(tx_raws), tx_exc))
 
     # ---------------------------------------------------------------- receive side: implementation
-    n_bundles = 36 if quick else 400
+    n_bundles = 36 if quick else 240
     bursts = 12 if quick else 60
-    full_bits = 12 if quick else n_bundles      # quick: exhaustive single-bit flips for the first 12 bundles, every 3rd bit for the rest
+    full_bits = 10 if quick else n_bundles      # quick: exhaustive single-bit flips for the first 10 bundles, every 3rd bit for the rest
     specs = sweep_specs(rng, n_bundles)
     tasks = []
     skipped = 0
@@ -905,7 +906,10 @@ def main():
             coq_bytes(bytes.fromhex(task['orig'])),
             '; '.join('(%d%%nat, %s)' % (off, coq_bytes(bytes.fromhex(xs))) for (off, xs, _t) in task['corr']))))
     spec_sample = [idx for (idx, (_s, raw, _v, _p)) in enumerate(tx_raws) if len(raw) <= 110][:12 if quick else 120]
-    for (idx, (_s, raw, _v, _p)) in enumerate(tx_raws):
+    tx_model_idx = [idx for (idx, (_s, _r, _v, probs)) in enumerate(tx_raws) if probs or not quick or idx % 2 == 0]
+    spec_sample = [idx for idx in spec_sample if idx in tx_model_idx]
+    for idx in tx_model_idx:
+        raw = tx_raws[idx][1]
         evals.append((max(1, len(raw) // 4), ('tx', idx), '(BundleCrc.run_tx %s)' % coq_bytes(raw)))
     for idx in spec_sample:
         evals.append((len(tx_raws[idx][1]) * 3, ('txspec', idx), '(BundleCrc.run_tx_spec %s)' % coq_bytes(tx_raws[idx][1])))
@@ -917,7 +921,7 @@ def main():
         tx_model = None
     else:
         rx_model = [model[('rx', tidx)] for tidx in model_tasks]
-        tx_model = [model[('tx', idx)] for idx in range(len(tx_raws))]
+        tx_model = [model[('tx', idx)] for idx in tx_model_idx]
         for idx in spec_sample:
             if model[('txspec', idx)] != model[('tx', idx)]:
                 tx_model_bad.append('polynomial-specification CRC column differs from the executable one on %s' % tx_raws[idx][1].hex()[:80])
@@ -963,7 +967,7 @@ def main():
                     model_bad.append('strict model accepts a canonical corruption with a wrong CRC: %s' % where)
     if tx_model is not None:
         decoded = 0
-        for ((scn, raw, views, probs), val) in zip(tx_raws, tx_model):
+        for ((scn, raw, views, probs), val) in zip([tx_raws[idx] for idx in tx_model_idx], tx_model):
             if val is None:
                 continue
             (flags3, rows) = val[1]
@@ -983,9 +987,9 @@ def main():
                 # the oracle failed: the model must fail too (it recomputes the same CRCs)
                 if flags3[1] and got_rows == want_rows:
                     tx_model_bad.append('%s: oracle fails but the model accepts' % raw.hex()[:80])
-        chk.hist['tx_model_decoded'] = {'decoded': decoded, 'of': len(tx_raws)}
-        if tx_raws and decoded * 2 < len(tx_raws):
-            tx_model_bad.append('the model decodes only %d of %d transmitted bundles' % (decoded, len(tx_raws)))
+        chk.hist['tx_model_decoded'] = {'decoded': decoded, 'of': len(tx_model_idx)}
+        if tx_model_idx and decoded * 2 < len(tx_model_idx):
+            tx_model_bad.append('the model decodes only %d of %d transmitted bundles' % (decoded, len(tx_model_idx)))
     chk.hist['rx_model_positions'] = pos_stats
 
     # ---------------------------------------------------------------- hunts
